@@ -170,13 +170,14 @@ def recorder_excm(ctx):
     return ctx.excm(RECORDER_SCOPE)
 
 
-def run_closure(ctx, kind, variant, track_free=(), reentry=True, cls=RecDom, key_extra=None, **domkw):
-    key = ('closure-run', kind, variant, tuple(sorted(track_free)), reentry, cls.__name__, key_extra)
+def run_closure(ctx, kind, variant, track_free=(), reentry=True, cls=RecDom, key_extra=None, framework_faults=False, **domkw):
+    key = ('closure-run', kind, variant, tuple(sorted(track_free)), reentry, cls.__name__, key_extra, framework_faults)
 
     def make():
         ex = recorder_excm(ctx)
         roles = ctx.roles
-        pol = RecorderPolicy(ctx.repo, ex, roles, summaries=ctx.get(('summ', 'rec'), lambda: __import__('sa.summaries', fromlist=['Summaries']).Summaries(ctx.repo, ex)), reentry=reentry)
+        pol = RecorderPolicy(ctx.repo, ex, roles, summaries=ctx.get(('summ', 'rec'), lambda: __import__('sa.summaries', fromlist=['Summaries']).Summaries(ctx.repo, ex)), reentry=reentry,
+                             framework_faults=framework_faults)
         b, g, pol = build_closure(ctx.repo, ex, roles, kind, policy=pol)
         dom = cls(g, ctx.repo, ex, pol, roles, variant=variant, track_free=track_free, **domkw)
         dom.builder = b
@@ -185,13 +186,14 @@ def run_closure(ctx, kind, variant, track_free=(), reentry=True, cls=RecDom, key
     return ctx.get(key, make)
 
 
-def run_method(ctx, func, variant, track_free=(), reentry=True, cls=RecDom, **domkw):
-    key = ('method-run', func.qualname, variant, tuple(sorted(track_free)), reentry, cls.__name__)
+def run_method(ctx, func, variant, track_free=(), reentry=True, cls=RecDom, framework_faults=False, **domkw):
+    key = ('method-run', func.qualname, variant, tuple(sorted(track_free)), reentry, cls.__name__, framework_faults)
 
     def make():
         ex = recorder_excm(ctx)
         roles = ctx.roles
-        pol = RecorderPolicy(ctx.repo, ex, roles, summaries=ctx.get(('summ', 'rec'), lambda: __import__('sa.summaries', fromlist=['Summaries']).Summaries(ctx.repo, ex)), reentry=reentry)
+        pol = RecorderPolicy(ctx.repo, ex, roles, summaries=ctx.get(('summ', 'rec'), lambda: __import__('sa.summaries', fromlist=['Summaries']).Summaries(ctx.repo, ex)), reentry=reentry,
+                             framework_faults=framework_faults)
         b, g, pol = build_method(ctx.repo, ex, roles, func, policy=pol)
         dom = cls(g, ctx.repo, ex, pol, roles, variant=variant, track_free=track_free, **domkw)
         dom.builder = b
